@@ -163,7 +163,7 @@ HARNESSES = [
       assumes=['serde protocol: one visit_* per deserialize_any; Serialize::serialize called at most once per element']),
     H('U-TX', 'stream', 'tx_error_attribution_depth2', 'bounded', ['C11', 'C12', 'C01'], tier='thorough', bounds='mock nesting depth 2 (collections in element, key and value position)',
       fns=['transcode::stream::transcode'], timeout=3600, min_covers=3),
-    H('U-VAL', 'value', 'value_scalar_types_and_bits_kept', 'complete', ['C01', 'C06'], bounds='21 visit forms x every 128-bit payload',
+    H('U-VAL', 'value', 'value_scalar_types_and_bits_kept', 'complete', ['C01', 'C06'], bounds='18 visit forms (all scalar widths, char, unit, three string forms) x every 128-bit payload',
       fns=['transcode::value::Value::deserialize', 'transcode::value::Value::serialize'], timeout=900, min_covers=4),
     H('U-VAL', 'value', 'value_event_fidelity_depth1', 'bounded', ['C01', 'C06'], bounds='mock nesting depth 1, <= 2 elements / 1 map entry',
       fns=['transcode::value::Value::deserialize', 'transcode::value::Value::serialize'], timeout=900, min_covers=2),
@@ -180,16 +180,35 @@ HARNESSES = [
     H('U-TOML', 'toml', 'toml_ensure_one_use_contract', 'complete', ['C08'], bounds='both states', fns=['toml::Output::ensure_one_use'], timeout=300),
     H('U-TOML', 'toml', 'toml_second_use_refused_before_any_work', 'complete', ['C08'], bounds='any history with used == true; 4 deserializer behaviours',
       fns=['toml::Output::transcode_from', 'toml::Output::ensure_one_use'], timeout=900),
-    H('U-TOML', 'toml', 'toml_non_table_root_refused_without_write', 'complete', ['C08', 'C11'], bounds='boolean / integer / float roots with any payload; failing deserializer',
-      fns=['toml::Output::transcode_from', 'toml::Output::output_value'], timeout=900, min_covers=1,
-      assumes=['runs the real toml::Value::deserialize on scalar events']),
-    H('U-TOML', 'toml', 'toml_output_value_rejects_non_tables', 'complete', ['C08'], bounds='Boolean, Integer, Float (any payload), Datetime, Array roots',
-      fns=['toml::Output::output_value'], timeout=900),
+    H('U-TOML', 'toml', 'toml_bool_root_refused_without_write', 'complete', ['C08', 'C11'], bounds='boolean root, any payload',
+      fns=['toml::Output::transcode_from', 'toml::Output::output_value', 'toml::Output::ensure_one_use'], timeout=900,
+      assumes=['runs the real toml::Value::deserialize on one scalar event; toml::to_string_pretty stubbed (must not be reached)']),
+    H('U-TOML', 'toml', 'toml_integer_root_refused_without_write', 'complete', ['C08', 'C11'], bounds='integer root, any payload',
+      fns=['toml::Output::transcode_from', 'toml::Output::output_value', 'toml::Output::ensure_one_use'], timeout=900,
+      assumes=['runs the real toml::Value::deserialize on one scalar event; toml::to_string_pretty stubbed (must not be reached)']),
+    H('U-TOML', 'toml', 'toml_float_root_refused_without_write', 'complete', ['C08', 'C11'], bounds='float root, any payload',
+      fns=['toml::Output::transcode_from', 'toml::Output::output_value', 'toml::Output::ensure_one_use'], timeout=900,
+      assumes=['runs the real toml::Value::deserialize on one scalar event; toml::to_string_pretty stubbed (must not be reached)']),
+    H('U-TOML', 'toml', 'toml_failed_deserialization_consumes_the_use', 'complete', ['C08', 'C11'], bounds='deserializer fails',
+      fns=['toml::Output::transcode_from', 'toml::Output::output_value', 'toml::Output::ensure_one_use'], timeout=900,
+      assumes=['runs the real toml::Value::deserialize on one scalar event; toml::to_string_pretty stubbed (must not be reached)']),
+    H('U-TOML', 'toml', 'toml_output_value_rejects_scalars', 'complete', ['C08'], bounds='Boolean / Integer / Float roots, any payload',
+      fns=['toml::Output::output_value'], timeout=900, assumes=['toml::to_string_pretty stubbed (must not be reached)']),
+    H('U-TOML', 'toml', 'toml_output_value_rejects_datetime', 'complete', ['C08'], bounds='Datetime root',
+      fns=['toml::Output::output_value'], timeout=900, assumes=['toml::to_string_pretty stubbed (must not be reached)']),
+    H('U-TOML', 'toml', 'toml_output_value_rejects_array', 'complete', ['C08'], bounds='Array root',
+      fns=['toml::Output::output_value'], timeout=900, assumes=['toml::to_string_pretty stubbed (must not be reached)']),
     H('U-TOML', 'toml', 'toml_table_root_written_once', 'complete', ['C08', 'C12'], bounds='serializer Ok(1..=3 byte document) / Err; writer ok / failing',
       fns=['toml::Output::output_value'], timeout=600, min_covers=3,
       assumes=['toml::to_string_pretty stubbed by its assumed contract (Ok(document) or Err)', 'std::hash::RandomState::new stubbed by a fixed seed (table is empty, never hashed)']),
-    H('U-JSN', 'json', 'json_input_matches_error_mapping', 'complete', ['C09', 'C12'], bounds='every slice <= 3 B x 3 trial outcomes',
-      fns=['json::input_matches'], timeout=900, min_covers=3,
+    H('U-JSN', 'json', 'json_input_matches_mapping_ok', 'complete', ['C09', 'C12'], bounds='every slice <= 3 B; trial accepts',
+      fns=['json::input_matches'], timeout=900, min_covers=1,
+      assumes=['serde_json trial stubbed by its assumed contract; serde_json::Error::is_io stubbed by the ghost category of the error the stub produced']),
+    H('U-JSN', 'json', 'json_input_matches_mapping_io_error', 'complete', ['C09', 'C12'], bounds='every slice <= 3 B; source fails during the trial',
+      fns=['json::input_matches'], timeout=900, min_covers=1,
+      assumes=['serde_json trial stubbed by its assumed contract; serde_json::Error::is_io stubbed by the ghost category of the error the stub produced']),
+    H('U-JSN', 'json', 'json_input_matches_mapping_syntax_error', 'complete', ['C09', 'C12'], bounds='every slice <= 3 B; trial meets a syntax / data / EOF error',
+      fns=['json::input_matches'], timeout=900, min_covers=1,
       assumes=['serde_json trial stubbed by its assumed contract; serde_json::Error::is_io stubbed by the ghost category of the error the stub produced']),
     H('U-LIB', 'lib', 'translator_flush_forwards_to_writer', 'complete', ['C12'], bounds='4 output formats x 4 writer flush results',
       fns=['Translator::flush', 'Dispatcher::flush', 'json::Output::flush', 'msgpack::Output::flush', 'toml::Output::flush', 'yaml::Output::flush'], timeout=300, min_covers=2),
